@@ -18,10 +18,10 @@ table() {
     C04) echo "ekmsim exploration 3000 150 100000 1500";;
     C03) echo "runnersim exploration 1200 170 30000 1500";;
     C05) echo "runnersim exploration 1200 170 30000 1500";;
-    C15) echo "runnersim fault_enumeration 1600 150 40000 1500";;
+    C15) echo "runnersim fault_enumeration 8000 150 200000 1500";;
     C16) echo "dutysim exploration 20000 150 500000 1500";;
     C14) echo "queuesim exploration 40000 120 1500000 1200";;
-    C13) echo "elsim exploration 30000 150 260000 1200";;
+    C13) echo "elsim exploration 25000 150 260000 1200";;
     C08) echo "valsim exploration 6000 150 120000 1300";;
     C09) echo "valsim exploration 2400 150 30000 1300";;
     *) return 1;;
